@@ -295,13 +295,16 @@ Definition transmit_single (c : cfg) (s : state) : single :=
 
 (* l2cap<>::transmit_pending_l2cap_output: repeat while something was sent. Every round that continues
    uses up one buffer, so free + 1 rounds always suffice (fuel). *)
-Fixpoint transmit_loop (fuel : nat) (c : cfg) (s : state) (acc : list (list N)) : option (state * list (list N)) :=
+Fixpoint transmit_loop (fuel : nat) (c : cfg) (s : state) : option (state * list (list N)) :=
   match fuel with
-  | O => Some (s, acc)
+  | O => Some (s, [])
   | S n => match transmit_single c s with
            | SFault => None
-           | SStop s' => Some (s', acc)
-           | SSent s' f => transmit_loop n c s' (acc ++ [f])
+           | SStop s' => Some (s', [])
+           | SSent s' f => match transmit_loop n c s' with
+                           | Some (s'', tx) => Some (s'', f :: tx)
+                           | None => None
+                           end
            end
   end.
 
@@ -319,7 +322,7 @@ Definition step (c : cfg) (s : state) (o : op) : state * out :=
   match o with
   | In frame => handle_input c s frame
   | Req a b c' d => let '(sts, ok) := request_each (chans c) (cs s) a b c' d in (mk sts (free s), OReq ok)
-  | Poll => match transmit_loop (S (N.to_nat (free s))) c s [] with
+  | Poll => match transmit_loop (S (N.to_nat (free s))) c s with
             | Some (s', tx) => (s', OPoll tx)
             | None => (s, OFault)
             end
